@@ -118,6 +118,8 @@ type Ctx struct {
 	itemModel Model
 	IntMode   bool
 	BigW      int // width of big.Int model in BV mode
+	// digitChars: character terms made by bigText -> the digit value they spell
+	digitChars map[*Term]*Term
 
 	pc     []*Term
 	pcSet  map[string]bool
